@@ -18,7 +18,7 @@ InDomain(e) ==
   /\ e.op \in Cipher \cup {"GetKeyStream", "Zuc"}
   /\ e.op \in Cipher => (e.alg \in 1..3 /\ e.bearer \in 0..31 /\ e.dir \in 0..1 /\ Len(e.data) = NBytes(e.nbits))
 Verdict(e) ==
-  IF ~InDomain(e) THEN "ok"
+  IF ~InDomain(e) THEN "out-of-domain"      \* the harness only makes in-domain calls: reported, treated as a harness problem
   ELSE IF e.panic THEN "panic"
   ELSE IF e.err THEN "error"
   ELSE IF Len(e.out) # NBytes(e.nbits) THEN "length"
